@@ -23,6 +23,7 @@ import (
 	"github.com/bnb-chain/tss-lib/v2/tss"
 
 	"verif/internal/core"
+	"verif/internal/statehash"
 )
 
 type Proto string
@@ -116,6 +117,7 @@ type Node struct {
 	EcKey    *eckg.LocalPartySaveData // the caller-held key data handed to the constructor (signing / resharing)
 	EdKey    *edkg.LocalPartySaveData
 	Delivered []string // refs delivered (in order), with flag marks
+	KeyHash0   string   // value hash of the caller-held key data before the party was constructed from it
 	Poisoned   bool     // a call panicked: the party is not called any more
 	PanicSites []string // first tss-lib frame below each recovered panic
 }
@@ -147,6 +149,7 @@ func panicSite(stack string) string {
 }
 
 type Network struct {
+	KeyHash0 []string // per entry of cfg.EcKeys / cfg.EdKeys (in that order)
 	Cfg   Config
 	Nodes []*Node
 	OldN  int // number of old-committee nodes (resharing), they come first
@@ -185,8 +188,18 @@ func makeIDs(keys []*big.Int, order []int, prefix string) tss.SortedPartyIDs {
 	return tss.SortPartyIDs(ids)
 }
 
-// New builds the parties (constructors only; nothing is started).
-func New(cfg Config) (*Network, error) {
+// New builds the parties (constructors only; nothing is started). A panic inside a constructor is
+// returned as an error.
+func New(cfg Config) (nw *Network, err error) {
+	defer func() {
+		if x := recover(); x != nil {
+			nw, err = nil, fmt.Errorf("constructor panicked: %v", x)
+		}
+	}()
+	return newNetwork(cfg)
+}
+
+func newNetwork(cfg Config) (*Network, error) {
 	// the caller-held key data of this network is private to it: resharing erases Xi in place
 	if cfg.EcKeys != nil && !cfg.ShareKeys {
 		cp := make([]eckg.LocalPartySaveData, len(cfg.EcKeys))
@@ -209,6 +222,13 @@ func New(cfg Config) (*Network, error) {
 		cfg.EdKeys = cp
 	}
 	nw := &Network{Cfg: cfg}
+	// value hashes of the caller-held key data BEFORE any party is constructed from it
+	for i := range cfg.EcKeys {
+		nw.KeyHash0 = append(nw.KeyHash0, statehash.ValueHash(&cfg.EcKeys[i]))
+	}
+	for i := range cfg.EdKeys {
+		nw.KeyHash0 = append(nw.KeyHash0, statehash.ValueHash(&cfg.EdKeys[i]))
+	}
 	ec := cfg.Proto.Curve()
 	mk := func(idx int, role string, id *tss.PartyID) *Node {
 		return &Node{Idx: idx, Role: role, ID: id, out: make(chan tss.Message, 4096)}
@@ -376,6 +396,18 @@ func New(cfg Config) (*Network, error) {
 		}
 	default:
 		return nil, fmt.Errorf("unknown protocol %q", cfg.Proto)
+	}
+	for _, n := range nw.Nodes {
+		for k := range nw.Cfg.EcKeys {
+			if n.EcKey == &nw.Cfg.EcKeys[k] && k < len(nw.KeyHash0) {
+				n.KeyHash0 = nw.KeyHash0[k]
+			}
+		}
+		for k := range nw.Cfg.EdKeys {
+			if n.EdKey == &nw.Cfg.EdKeys[k] && len(nw.Cfg.EcKeys)+k < len(nw.KeyHash0) {
+				n.KeyHash0 = nw.KeyHash0[len(nw.Cfg.EcKeys)+k]
+			}
+		}
 	}
 	return nw, nil
 }
